@@ -1,4 +1,41 @@
-(* Blocking2.v -- T2 for C07 (Type I blocking) and C06 (node capacity) on the STAGE-2 engine model (Engine2.v). *)
+(* Blocking2.v -- T2 for C07 (Type I blocking) and C06 (node capacity) on the STAGE-2 engine model (Engine2.v): routers, reneging
+   and jockeying, priority pre-emption (resume / restart / resample / reroute), server schedules (pre-emptive or not), slotted
+   services, class change while waiting, server priority functions.  Partial correctness: nothing is said about runs in which the
+   model returns Err / OutOfFuel.  For every state satisfying the invariant, every oracle of draws and any number of events:
+
+   (i)   EVERY configuration (event_step_len2, run_many_len2): node identities are positions and every blocked-queue counter is
+         the length of its blocked queue (Len2); blocked queues keep their order (ord): what is left of an old queue is an
+         order-preserving sub-list of it and newcomers are only added at the end.
+   (ii)  scope_blk cf = true  (every kind of `reroute` pre-emption -- priority, shift change, capacitated slot -- only at nodes
+         WITHOUT a capacity limit)  (event_step_blk2, run_many_blk2, blk2_means): nobody is left blocked while the destination
+         has space: a node with a non-empty blocked queue has a finite capacity and is full (Blk2).
+         Outside the scope this is FALSE: blk2_refuted_reroute (new: release(reroute=True) does not call
+         release_blocked_individual, so a pre-empted and rerouted victim leaves a free place behind it that nobody takes).
+   (iii) scope_cap cf = true  (no `reroute` pre-emption at all; reneging customers jockey only to the exit or to nodes without
+         a capacity limit)  (event_step_cap2, run_many_cap2, cap2_means, blk2_full): no node holds more than its capacity (Cap2),
+         nc_cap being the node_capacity the implementation computed once (c = 0 for scheduled nodes, F-06a); with (ii) somebody
+         is blocked to a node only while it is exactly full.
+         Outside the scope FALSE: cap2_refuted_jockeying, cap2_refuted_reroute (known: jockeying and reroute ignore capacities).
+   (iv)  scope_fifo cf = true  (schedules are non-pre-emptive or `reroute`; capacitated slots likewise) and no node counts an
+         interrupted customer (NoInt)  (event_step_fifo2, run_many_fifo2): the FIFO dichotomy -- in one event either blocked
+         queues only lose heads (release_blocked_individual takes the HEAD: customers enter a node in the order they became blocked
+         to it), or exactly one customer of the active node joins the END of the blocked queue of a node that is full and nothing
+         else changes (heads_only / one_blocked).  Priority pre-emption of any kind is allowed here.
+         Outside the scope FALSE: fifo_refuted_interrupted_blocked (F-02b: begin_interrupted_individuals_service takes the entry
+         of an interrupted blocked customer out of the MIDDLE of a blocked queue; the clock goes backwards in the same event).
+   Executable tests len2_b / noint_b / blk2_b / cap2_b with soundness; examples b2_* on a tandem with a full second node.
+
+   Not claimed: WHO is in the blocked queues (stage-1 Blocking.Who): in stage 2 pre-empted / interrupted blocked customers
+   (F-02a, F-02b) leave stale entries, so that statement needs a scope without pre-emption.
+
+   Method.  Part 0: the view of a state (per node: identity, population, blocked queue, its counter, number_interrupted), a frame
+   logic keepK for the engine functions that leave the view alone (one line each, tactic kpa) and a Hoare logic ht K P Q on views
+   whose only primitive move is "a node known to sit in its slot is written back with another view" (ht_put_node_ex); K
+   remembers the nodes that were read (okn) and the answer of has_space (spaceK) until the view changes.  Part A instantiates
+   it with "counter = length (and number_interrupted <= 0 in strict mode) and the blocked queues are related to those of the
+   initial view" (PA), Part B with the slack invariant Jb dl: node j is full up to dl j places (C07) and has dl j places left
+   (C06); dl is 0 at event boundaries and 1, inside release / renege, for the node that is about to receive a customer;
+   release / release_blocked_individual / accept / preempt are treated together by induction on the fuel (core_A, core_B). *)
 From Coq Require Import ZArith List Bool Lia.
 From RecordUpdate Require Import RecordUpdate.
 From CiwV Require Import Sx Prelude Routing Sched.
@@ -1165,13 +1202,13 @@ Section PartB.
 
   Lemma valid_dest_spec d s r s' : valid_dest d s = Ok (r, s') -> r = -1 \/ (r = d /\ 1 <= d) \/ d <= -2.
   Proof.
-    intros H. unfold valid_dest in H. unfold bind, gets in H.
-    repeat match type of H with
-           | (if ?c then _ else _) _ = _ => destruct c eqn:?
-           end; try discriminate.
-    - apply ret_inv in H as [-> _]. right. left. apply andb_true_iff in Heqb as [A _]. apply Z.leb_le in A. auto.
-    - apply ret_inv in H as [-> _]. left. reflexivity.
-    - right. right. apply andb_true_iff in Heqb1 as [_ A]. apply Z.leb_le in A. exact A.
+    intros H. unfold valid_dest in H. unfold bind, gets in H. cbv beta in H.
+    match type of H with (if ?c then _ else _) _ = _ => destruct c eqn:E1 end.
+    - apply ret_inv in H as [-> _]. right. left. apply andb_true_iff in E1 as [A _]. apply Z.leb_le in A. auto.
+    - match type of H with (if ?c then _ else _) _ = _ => destruct c eqn:E2 end.
+      + apply ret_inv in H as [-> _]. left. reflexivity.
+      + match type of H with (if ?c then _ else _) _ = _ => destruct c eqn:E3 end; [|discriminate].
+        right. right. apply andb_true_iff in E3 as [_ A]. apply Z.leb_le in A. exact A.
   Qed.
 
   (* where a reneging customer may jockey to, in the scope of C06 *)
@@ -1430,8 +1467,11 @@ Qed.
 (* ---------- T2 for C07 (i): the counter is the length, blocked queues keep their order -- EVERY configuration ---------- *)
 Theorem event_step_len2 cf s s' : Len2 s -> event_step cf s = Ok (tt, s') -> Len2 s' /\ ord s s'.
 Proof.
-  intros HL H. destruct (proj1 (A_iff false s) (conj HL ltac:(discriminate))) as [HI HA].
-  destruct (event_step_A cf false ltac:(discriminate) s s' HI HA H) as [HI' [HA' HR]]. split.
+  intros HL H.
+  assert (HN : false = true -> NoInt s) by discriminate.
+  assert (Hsc : false = true -> scope_fifo cf = true) by discriminate.
+  destruct (proj1 (A_iff false s) (conj HL HN)) as [HI HA].
+  destruct (event_step_A cf false Hsc s s' HI HA H) as [HI' [HA' HR]]. split.
   - exact (proj1 (proj2 (A_iff false s') (conj HI' HA'))).
   - apply RA_ord. destruct HR as [HR|HR]; [exact HR|eapply pushR_RA; exact HR].
 Qed.
@@ -1468,8 +1508,11 @@ Qed.
 (* ---------- T2 for C07 (ii): nobody is left blocked while the destination has space ---------- *)
 Theorem event_step_blk2 cf s s' : scope_blk cf = true -> Blk2 cf s -> event_step cf s = Ok (tt, s') -> Blk2 cf s'.
 Proof.
-  intros Hsc HB H. destruct (proj1 (B_iff cf false s) (conj HB ltac:(discriminate))) as [HI HJ].
-  destruct (event_step_B cf false Hsc ltac:(discriminate) s s' HI HJ H) as [HI' HJ'].
+  intros Hsc HB H.
+  assert (HC : false = true -> Cap2 cf s) by discriminate.
+  assert (Hsc2 : false = true -> scope_cap cf = true) by discriminate.
+  destruct (proj1 (B_iff cf false s) (conj HB HC)) as [HI HJ].
+  destruct (event_step_B cf false Hsc Hsc2 s s' HI HJ H) as [HI' HJ'].
   exact (proj1 (proj2 (B_iff cf false s') (conj HI' HJ'))).
 Qed.
 Theorem run_many_blk2 cf : scope_blk cf = true -> forall ds s s', Blk2 cf s -> run_many cf s ds = Ok s' -> Blk2 cf s'.
@@ -1566,3 +1609,246 @@ Proof.
   rewrite forallb_forall in H2. specialize (H2 nd (nth_error_In _ _ Hk)).
   replace (n_id nd) with (Z.of_nat k + 1) in H2 by lia. rewrite Hc in H2. apply Z.leb_le in H2. exact H2.
 Qed.
+
+(* ====================================================================================================================== *)
+(* Examples, and what is FALSE outside the scopes                                                                          *)
+(* ====================================================================================================================== *)
+Definition cap_viol (cf : config) (s : sim) (k : nat) : bool :=
+  match nth_error (nodes s) k with
+  | Some nd => match cap_of cf (Z.of_nat k + 1) with Some c => c <? n_pop nd | None => false end
+  | None => false
+  end.
+Lemma cap_viol_sound cf s k : cap_viol cf s k = true -> ~ Cap2 cf s.
+Proof.
+  unfold cap_viol. intros H HC. destruct (nth_error (nodes s) k) as [nd|] eqn:Ek; [|discriminate].
+  destruct (cap_of cf (Z.of_nat k + 1)) as [c|] eqn:Ec; [|discriminate]. apply Z.ltb_lt in H. pose proof (HC k nd c Ek Ec). lia.
+Qed.
+Definition blk_viol (cf : config) (s : sim) (k : nat) : bool :=
+  match nth_error (nodes s) k with
+  | Some nd => match n_bq nd with
+               | [] => false
+               | _ :: _ => match cap_of cf (Z.of_nat k + 1) with Some c => n_pop nd <? c | None => true end
+               end
+  | None => false
+  end.
+Lemma blk_viol_sound cf s k : blk_viol cf s k = true -> ~ Blk2 cf s.
+Proof.
+  unfold blk_viol. intros H HB. destruct (nth_error (nodes s) k) as [nd|] eqn:Ek; [|discriminate].
+  destruct (HB k nd Ek) as (_ & _ & B). destruct (n_bq nd) as [|e r]; [discriminate|].
+  destruct (B ltac:(discriminate)) as (c & Hc & Hle). rewrite Hc in H. apply Z.ltb_lt in H. lia.
+Qed.
+Fixpoint bq_eqb (a b : bq_t) : bool :=
+  match a, b with
+  | [], [] => true
+  | x :: r, y :: t => (fst x =? fst y) && (snd x =? snd y) && bq_eqb r t
+  | _, _ => false
+  end.
+Lemma bq_eqb_refl a : bq_eqb a a = true.
+Proof. induction a as [|x r IH]; [reflexivity|]. cbn [bq_eqb]. rewrite !Z.eqb_refl, IH. reflexivity. Qed.
+(* node k's blocked queue got shorter, and what is left is not what is left after taking heads *)
+Definition heads_viol (s s' : sim) (k : nat) : bool :=
+  match nth_error (nodes s) k, nth_error (nodes s') k with
+  | Some nd, Some nd' =>
+    (length (n_bq nd') <? length (n_bq nd))%nat && negb (bq_eqb (n_bq nd') (skipn (length (n_bq nd) - length (n_bq nd')) (n_bq nd)))
+  | _, _ => false
+  end.
+Lemma heads_viol_sound cf j s s' k : heads_viol s s' k = true -> ~ (heads_only s s' \/ one_blocked cf j s s').
+Proof.
+  unfold heads_viol. intros H. destruct (nth_error (nodes s) k) as [nd|] eqn:Ek; [|discriminate].
+  destruct (nth_error (nodes s') k) as [nd'|] eqn:Ek'; [|discriminate].
+  apply andb_true_iff in H as [H1 H2]. apply Nat.ltb_lt in H1. apply negb_true_iff in H2. intros [F|F].
+  - destruct (F k nd Ek) as (nd1 & Hk1 & n & E). rewrite Ek' in Hk1. injection Hk1 as <-.
+    assert (En : skipn (length (n_bq nd) - length (n_bq nd')) (n_bq nd) = n_bq nd').
+    { rewrite E. rewrite skipn_length. destruct (Nat.le_gt_cases n (length (n_bq nd))) as [Hle|Hgt].
+      - replace (length (n_bq nd) - (length (n_bq nd) - n))%nat with n by lia. reflexivity.
+      - replace (length (n_bq nd) - (length (n_bq nd) - n))%nat with (length (n_bq nd)) by lia.
+        rewrite skipn_all. symmetry. apply skipn_all2. lia. }
+    rewrite En, bq_eqb_refl in H2. discriminate.
+  - destruct F as (kD & i & c & _ & F). destruct (F k nd Ek) as (nd1 & Hk1 & _ & E). rewrite Ek' in Hk1. injection Hk1 as <-.
+    destruct (Nat.eqb k kD); rewrite E in H1; [rewrite app_length in H1; cbn in H1|]; lia.
+Qed.
+
+Definition x_srv (i : Z) : server := mkServer i None false None 0 None 0 false 0 None.
+Definition x_node (j : Z) (nq : nat) (srv : list server) (c : Z) : node :=
+  mkNode j 0 0 (repeat [] nq) srv [] 0 None [] (Some c) c [] 0 [] [] [] 0 None 0 None None.
+Definition x_nd : draws := mkDraws [] [] [] [] [] [].
+Definition x_after (cf : config) (s0 : sim) (ds : list draws) : sim := match run_many cf s0 ds with Ok s => s | _ => s0 end.
+
+(* ---- a tandem: node 1 (one server, unlimited queue) feeds node 2 (one server, no waiting room: capacity 1), which feeds the exit;
+   arrivals every 2 ticks, every service takes 3 ---- *)
+Definition b2_cf : config :=
+  mkCfg 1
+    [ mkNcfg None None 0 SFixed 0 false [false] 0;
+      mkNcfg (Some 1) None 0 SFixed 0 false [false] 0 ]
+    [0] 1 None [ RtNR [RDirect 2; RLeave] ] [ [None; None] ] false [ [false] ].
+Definition b2_s0 : sim :=
+  mkSim 1 0 (mkArr 0 0 [[Some 1]; [None]] 1 0 (Some 1)) [x_node 1 1 [x_srv 1] 1; x_node 2 1 [x_srv 1] 1] [] 0 0 [] x_nd [] [[0; 0]].
+Definition b2_d : draws := mkDraws [2] [1] [3; 3] [0; 0] [] [].
+
+Example b2_scopes : scope_fifo b2_cf = true /\ scope_blk b2_cf = true /\ scope_cap b2_cf = true.
+Proof. vm_compute. repeat split; reflexivity. Qed.
+Example b2_initial : len2_b b2_s0 = true /\ noint_b b2_s0 = true /\ blk2_b b2_cf b2_s0 = true /\ cap2_b b2_cf b2_s0 = true.
+Proof. vm_compute. repeat split; reflexivity. Qed.
+(* after 6 events customer 2 has finished at node 1 while node 2 is full: it is blocked; one event later node 2 has let
+   customer 1 go and customer 2 has taken the place *)
+Example b2_blocked :
+  map (fun nd => (n_pop nd, n_queues nd, n_bq nd, n_lenbq nd)) (nodes (x_after b2_cf b2_s0 (repeat b2_d 6)))
+    = [(3, [[2; 3; 4]], [], 0); (1, [[1]], [(1, 2)], 1)] /\
+  map (fun nd => (n_pop nd, n_queues nd, n_bq nd, n_lenbq nd)) (nodes (x_after b2_cf b2_s0 (repeat b2_d 7)))
+    = [(2, [[3; 4]], [], 0); (1, [[2]], [], 0)] /\
+  exit_ids (x_after b2_cf b2_s0 (repeat b2_d 7)) = [1] /\
+  blk2_b b2_cf (x_after b2_cf b2_s0 (repeat b2_d 6)) = true /\ cap2_b b2_cf (x_after b2_cf b2_s0 (repeat b2_d 6)) = true.
+Proof. vm_compute. repeat split; reflexivity. Qed.
+(* by the theorems: whatever the draws and however long the run *)
+Example b2_run : forall ds s', run_many b2_cf b2_s0 ds = Ok s' ->
+  Len2 s' /\ NoInt s' /\ Blk2 b2_cf s' /\ Cap2 b2_cf s' /\ fifo b2_s0 s' /\ ord b2_s0 s'.
+Proof.
+  intros ds s' H. destruct b2_scopes as (S1 & S2 & S3). destruct b2_initial as (I1 & I2 & I3 & I4).
+  apply len2_b_sound in I1. apply noint_b_sound in I2. apply blk2_b_sound in I3. apply cap2_b_sound in I4.
+  destruct (run_many_fifo2 b2_cf S1 ds _ _ I1 I2 H) as (A & B & C).
+  destruct (run_many_cap2 b2_cf S3 ds _ _ I3 I4 H) as (D & E).
+  destruct (run_many_len2 b2_cf ds _ _ I1 H) as (_ & F). exact (conj A (conj B (conj D (conj E (conj C F))))).
+Qed.
+
+(* ---- C06 is FALSE with jockeying into a node with a capacity (reneging customers jockey without a capacity test): node 1 has
+   reneging and its customers jockey to node 2 (capacity 1), which ends up with 2 customers ---- *)
+Definition r1_cf : config :=
+  mkCfg 1
+    [ mkNcfg None None 0 SFixed 0 true [true] 0;
+      mkNcfg (Some 1) None 0 SFixed 0 false [false] 0 ]
+    [0] 1 None [ RtNR [RJockey 2 2; RLeave] ] [ [None; None] ] false [ [false] ].
+Definition r1_s0 : sim :=
+  mkSim 1 0 (mkArr 0 0 [[Some 1]; [None]] 1 0 (Some 1)) [x_node 1 1 [x_srv 1] 1; x_node 2 1 [x_srv 1] 1] [] 0 0 [] x_nd [] [[0; 0]].
+Definition r1_ds : list draws :=
+  [ mkDraws [2] [1] [1] [0;0] [50] []; mkDraws [] [] [100] [0;0] [] []; mkDraws [2] [1] [100] [0;0] [50] [];
+    mkDraws [2] [1] [] [0;0] [1] []; mkDraws [] [] [] [0;0] [] [] ].
+Theorem cap2_refuted_jockeying :
+  exists cf s ds s', scope_blk cf = true /\ scope_fifo cf = true /\ Blk2 cf s /\ Cap2 cf s /\ run_many cf s ds = Ok s' /\
+    Blk2 cf s' /\ ~ Cap2 cf s'.
+Proof.
+  exists r1_cf, r1_s0, r1_ds, (x_after r1_cf r1_s0 r1_ds).
+  split; [vm_compute; reflexivity|]. split; [vm_compute; reflexivity|].
+  split; [apply blk2_b_sound; vm_compute; reflexivity|]. split; [apply cap2_b_sound; vm_compute; reflexivity|].
+  split; [vm_compute; reflexivity|]. split; [apply blk2_b_sound; vm_compute; reflexivity|].
+  apply (cap_viol_sound _ _ 1%nat). vm_compute. reflexivity.
+Qed.
+
+(* ---- C06 is FALSE with `reroute` pre-emption (the victim enters its next node without a capacity test): node 1 pre-empts by
+   priority with option reroute, node 2 has capacity 1 and ends up with 2 customers ---- *)
+Definition r2_cf : config :=
+  mkCfg 2
+    [ mkNcfg None None 0 SFixed 4 false [false; false] 0;
+      mkNcfg (Some 1) None 0 SFixed 0 false [false; false] 0 ]
+    [0; 1] 2 None [ RtNR [RDirect 2; RLeave]; RtNR [RDirect 2; RLeave] ] [ [None; None]; [None; None] ] false [ [false; false]; [false; false] ].
+Definition r2_s0 : sim :=
+  mkSim 1 0 (mkArr 0 0 [[Some 6; Some 1]; [None; None]] 1 1 (Some 1)) [x_node 1 2 [x_srv 1] 1; x_node 2 2 [x_srv 1] 1] [] 0 0 [] x_nd [] [[0; 0]; [0; 0]].
+Definition r2_ds : list draws :=
+  [ mkDraws [2] [1] [1] [0;0] [] []; mkDraws [] [] [100] [0;0] [] []; mkDraws [100] [1] [100] [0;0] [] [];
+    mkDraws [100] [1] [7; 7] [0;0] [] [] ].
+Theorem cap2_refuted_reroute :
+  exists cf s ds s', scope_blk cf = true /\ scope_fifo cf = true /\ Blk2 cf s /\ Cap2 cf s /\ run_many cf s ds = Ok s' /\
+    Blk2 cf s' /\ ~ Cap2 cf s'.
+Proof.
+  exists r2_cf, r2_s0, r2_ds, (x_after r2_cf r2_s0 r2_ds).
+  split; [vm_compute; reflexivity|]. split; [vm_compute; reflexivity|].
+  split; [apply blk2_b_sound; vm_compute; reflexivity|]. split; [apply cap2_b_sound; vm_compute; reflexivity|].
+  split; [vm_compute; reflexivity|]. split; [apply blk2_b_sound; vm_compute; reflexivity|].
+  apply (cap_viol_sound _ _ 1%nat). vm_compute. reflexivity.
+Qed.
+
+(* ---- C07 (ii) is FALSE with `reroute` pre-emption at a node that has a capacity: node 2 (one server, one waiting place) is
+   full and customers 3 (high priority) and 4 are blocked to it; when customer 1 leaves node 2, customer 3 enters, pre-empts
+   customer 2, which is rerouted away by release(reroute=True) -- without release_blocked_individual: node 2 is left with one
+   free place and customer 4 still blocked to it ---- *)
+Definition r3_cf : config :=
+  mkCfg 2
+    [ mkNcfg None None 0 SFixed 0 false [false; false] 0;
+      mkNcfg (Some 2) None 0 SFixed 4 false [false; false] 0 ]
+    [0; 1] 2 None [ RtNR [RDirect 2; RLeave]; RtNR [RDirect 2; RLeave] ] [ [None; None]; [None; None] ] false [ [false; false]; [false; false] ].
+Definition r3_s0 : sim :=
+  mkSim 1 0 (mkArr 0 0 [[Some 5; Some 1]; [None; None]] 1 1 (Some 1)) [x_node 1 2 [x_srv 1; x_srv 2] 2; x_node 2 2 [x_srv 1] 1] [] 0 0 [] x_nd [] [[0; 0]; [0; 0]].
+Definition r3_ds : list draws :=
+  [ mkDraws [1] [1] [1] [0;0] [] []; mkDraws [4] [1] [1] [0;0] [] []; mkDraws [] [] [20] [0;0] [] []; mkDraws [] [] [] [0;0] [] [];
+    mkDraws [100] [1] [1] [0;0] [] []; mkDraws [100] [1] [1] [0;0] [] []; mkDraws [] [] [] [0;0] [] []; mkDraws [] [] [] [0;0] [] [];
+    mkDraws [] [] [50; 50; 50] [0;0] [] [] ].
+Theorem blk2_refuted_reroute :
+  exists cf s ds s', scope_fifo cf = true /\ Blk2 cf s /\ Cap2 cf s /\ run_many cf s ds = Ok s' /\ Len2 s' /\ Cap2 cf s' /\ ~ Blk2 cf s'.
+Proof.
+  exists r3_cf, r3_s0, r3_ds, (x_after r3_cf r3_s0 r3_ds).
+  split; [vm_compute; reflexivity|].
+  split; [apply blk2_b_sound; vm_compute; reflexivity|]. split; [apply cap2_b_sound; vm_compute; reflexivity|].
+  split; [vm_compute; reflexivity|]. split; [apply len2_b_sound; vm_compute; reflexivity|].
+  split; [apply cap2_b_sound; vm_compute; reflexivity|].
+  apply (blk_viol_sound _ _ 1%nat). vm_compute. reflexivity.
+Qed.
+
+(* ---- the FIFO dichotomy is FALSE with a pre-emptive shift change that interrupts blocked customers (F-02b): node 1 has two
+   servers until 10, then one, pre-emption `resume`; customers 3 and 2 (in this order) are blocked to node 2 when the shift
+   ends; both are interrupted, customer 2 (the earlier arrival) is resumed on the new server and begin_interrupted_individuals_service
+   takes its entry out of the MIDDLE of node 2's blocked queue: [(1,3); (1,2)] becomes [(1,3)]  (and the clock goes back to 7) ---- *)
+Definition r4_cf : config :=
+  mkCfg 1
+    [ mkNcfg None None 0 (SSched (mkSched [10; 20] [2; 1] 0 1)) 0 false [false] 0;
+      mkNcfg (Some 1) None 0 SFixed 0 false [false] 0 ]
+    [0] 1 None [ RtNR [RDirect 2; RLeave] ] [ [None; None] ] false [ [false] ].
+Definition r4_n1 : node := mkNode 1 0 0 [[]] [] [] 0 (Some 0) [] (Some 0) 0 [] 0 [] [] [] 1 (Some 0) 0 None None.
+Definition r4_s0 : sim :=
+  mkSim 0 1 (mkArr 0 0 [[Some 1]; [None]] 1 0 (Some 1)) [r4_n1; x_node 2 1 [x_srv 1] 1] [] 0 0 [] x_nd [] [[0; 0]].
+Definition r4_ds : list draws :=
+  [ x_nd; mkDraws [1] [1] [1] [0;0] [] []; mkDraws [1] [1] [5] [0;0] [] []; mkDraws [] [] [100] [0;0] [] [];
+    mkDraws [100] [1] [1] [0;0] [] []; mkDraws [] [] [] [0;0] [] []; mkDraws [] [] [] [0;0] [] [] ].
+Definition r4_s7 : sim := x_after r4_cf r4_s0 r4_ds.
+Theorem fifo_refuted_interrupted_blocked :
+  exists cf s d s', scope_blk cf = true /\ scope_cap cf = true /\ Len2 s /\ NoInt s /\ Blk2 cf s /\
+    event_step cf (s <| dr := d |>) = Ok (tt, s') /\
+    map n_bq (nodes s) = [[]; [(1, 3); (1, 2)]] /\ map n_bq (nodes s') = [[]; [(1, 3)]] /\ now s' < now s /\
+    ~ (heads_only s s' \/ one_blocked cf (next_active s) s s').
+Proof.
+  exists r4_cf, r4_s7, x_nd, (x_after r4_cf r4_s7 [x_nd]).
+  split; [vm_compute; reflexivity|]. split; [vm_compute; reflexivity|].
+  split; [apply len2_b_sound; vm_compute; reflexivity|]. split; [apply noint_b_sound; vm_compute; reflexivity|].
+  split; [apply blk2_b_sound; vm_compute; reflexivity|].
+  split; [vm_compute; reflexivity|]. split; [vm_compute; reflexivity|]. split; [vm_compute; reflexivity|].
+  split; [vm_compute; reflexivity|].
+  apply (heads_viol_sound _ _ _ _ 1%nat). vm_compute. reflexivity.
+Qed.
+
+Print Assumptions event_step_len2.
+Print Assumptions run_many_len2.
+Print Assumptions event_step_fifo2.
+Print Assumptions run_many_fifo2.
+Print Assumptions event_step_blk2.
+Print Assumptions run_many_blk2.
+Print Assumptions event_step_cap2.
+Print Assumptions run_many_cap2.
+Print Assumptions blk2_means.
+Print Assumptions blk2_full.
+Print Assumptions cap2_means.
+Print Assumptions len2_b_sound.
+Print Assumptions noint_b_sound.
+Print Assumptions blk2_b_sound.
+Print Assumptions cap2_b_sound.
+Print Assumptions b2_blocked.
+Print Assumptions b2_run.
+Print Assumptions cap2_refuted_jockeying.
+Print Assumptions cap2_refuted_reroute.
+Print Assumptions blk2_refuted_reroute.
+Print Assumptions fifo_refuted_interrupted_blocked.
+
+(* ---------- the executable forms together, for a snapshot of the real engine: an invariant proved in a restricted scope is
+   reported as true outside it ---------- *)
+Definition blocking2_b (cf : config) (s : sim) : list bool :=
+  [ len2_b s;                                                   (* C07 (i): counter = length, every configuration *)
+    negb (scope_blk cf) || blk2_b cf s;                          (* C07 (ii): nobody blocked while the destination has space *)
+    negb (scope_cap cf) || (blk2_b cf s && cap2_b cf s);         (* C06: population <= capacity *)
+    negb (scope_fifo cf) || noint_b s ].                         (* hypothesis of the FIFO dichotomy *)
+Theorem blocking2_b_sound cf s : blocking2_b cf s = [true; true; true; true] ->
+  Len2 s /\ (scope_blk cf = true -> Blk2 cf s) /\ (scope_cap cf = true -> Blk2 cf s /\ Cap2 cf s) /\ (scope_fifo cf = true -> NoInt s).
+Proof.
+  unfold blocking2_b. intros H. injection H as H1 H2 H3 H4.
+  split; [apply len2_b_sound; exact H1|]. split; [|split].
+  - intros E. rewrite E in H2. cbn in H2. apply blk2_b_sound. exact H2.
+  - intros E. rewrite E in H3. cbn in H3. apply andb_true_iff in H3 as [A B]. split; [apply blk2_b_sound; exact A|apply cap2_b_sound; exact B].
+  - intros E. rewrite E in H4. cbn in H4. apply noint_b_sound. exact H4.
+Qed.
+Print Assumptions blocking2_b_sound.
